@@ -489,7 +489,9 @@ PROPS["C11"] = {
              "'steps'). configure-race unit: a 300-file directory; 16 (thorough 64 per shard) times a file already passed by the scan is "
              "replaced at a delay spread over the duration of one scan while Configure / NewCache runs; the cache must still converge "
              "(the watch has to exist before the scan). regress unit: scripted histories with explicit pacing (cache lock held to delay "
-             "the watcher) for F10, F17 and F18. during unit: the harness owns the schedule of one scan - the last file of one directory (any list "
+             "the watcher) for F10, F17 and F18. dirchurn unit: the same machine restricted to directory-level churn (mkdir, remove, rename "
+             "away, rename into place) plus empty creates and move-ins, so that histories are dense in the transitions in which a watch has "
+             "to be dropped and re-added. during unit: the harness owns the schedule of one scan - the last file of one directory (any list "
              "position) is a symbolic link to a named pipe outside the configured directories, so NewCache / Configure(dirs) on a manual or "
              "an auto cache blocks inside its scan until the harness feeds the pipe; in that window one generated change (create, rewrite, "
              "remove, move-in, replace by rename, mkdir+file of a missing directory, remove or rename away a directory) is made in a directory "
@@ -513,6 +515,7 @@ PROPS["C11"] = {
          "env": {"VERIF_C11_RACE_ITERS": {"quick": 16, "thorough": 64}}},
         {"name": "rapid", "mode": "rapid", "run": "TestC11Rapid", "race": True, "checks": {"quick": 2400, "thorough": 48000}, "timeout": {"quick": 400, "thorough": 3600}},
         {"name": "during", "mode": "rapid", "run": "TestC11During", "race": True, "shards": 4, "checks": {"quick": 320, "thorough": 8000}},
+        {"name": "dirchurn", "mode": "rapid", "run": "TestC11DirChurn", "race": True, "shards": 8, "checks": {"quick": 800, "thorough": 24000}},
     ],
 }
 
